@@ -117,7 +117,10 @@ CONTRACTS.update({
         ensures=[("configured", "self.equation is not None and self.loop_order is not None "
                                 "and self.partitioning is not None and self.coord_math is not None "
                                 "and self.einsum_ind == i"),
-                 ("tensor_set_kept", "same_ref(self.tensors, old(self.tensors))")],
+                 ("tensor_set_kept", "same_ref(self.tensors, old(self.tensors))"),
+                 # every piece of per-Einsum configuration is built anew by this call (nothing carried over)
+                 ("config_built_anew", "fresh(self.equation) and fresh(self.coord_math) and fresh(self.loop_order) "
+                                       "and fresh(self.partitioning) and (self.spacetime is None or fresh(self.spacetime))")],
     ),
     "Metrics.__init__": _opaque_ctor(["program", "hardware", "format_"]),
     "Fusion.add_einsum": dict(params=["self", "program"], assumed=True, modifies=[], raises={"ValueError": None},
